@@ -95,7 +95,10 @@ var texts = [][]string{
 }
 
 // shown constants
-var consts = []string{"x", "<b>&\"'", "*_#`", "a b", "</script>", "\\", "a\nb", "<!--", "é"}
+var consts = []string{"x", "<b>&\"'", "*_#`", "a b", "</script>", "\\", "a\nb", "<!-- c -->", "é"}
+
+// constant arguments for parameters of a format type
+var typedArgs = []string{"x", "a b", "*_#`", "é", "<b>y</b>", "\\", "1"}
 
 // ---------------------------------------------------------------- generated sets
 
@@ -628,8 +631,14 @@ func (g *genState) atoms(self *gfile, format int, n int, macros []int, partials 
 		case len(macros) > 0:
 			id := macros[g.pick(len(macros))]
 			var args []string
-			for range g.macParams[id] {
-				args = append(args, consts[g.pick(len(consts))])
+			for _, t := range g.macParams[id] {
+				if t == fText {
+					args = append(args, consts[g.pick(len(consts))])
+				} else {
+					// a typed argument is trusted content of that format: keep it well formed (an unclosed
+					// HTML comment in HTML content is a run-time error when shown in Markdown)
+					args = append(args, typedArgs[g.pick(len(typedArgs))])
+				}
 			}
 			out = append(out, gatom{kind: 'C', macro: id, args: args, w: w, viaVar: g.pick(3) == 0})
 		default:
@@ -962,7 +971,7 @@ func run(c *hx.Ctx) error {
 		if a.kind != "ok" || p.kind != "ok" || !strings.HasSuffix(a.out, "["+p.out+"]") {
 			b := proto.Break{Kind: "property", Name: "render-eq-standalone", Case: "a.html=" + string(fs["a.html"]) + " p.html=" + string(fs["p.html"]),
 				Human: "the second {{ render \"p.html\" }} (HTML context) must print p.html run on its own", Impl: a.line(), Model: "…[" + p.out + "]"}
-			if shown, err := m.esc(fText, map[string]int{"\"": ctxURLQuoted, "": ctxURLUnquoted}[q], "a b<"); err == nil && a.kind == "ok" && strings.HasSuffix(a.out, "["+shown+"]") {
+			if shown, err := m.esc(fText, ctxURLUnquoted, "a b<"); /* the leaked show keeps p's own context, so pathEscape runs unquoted */ err == nil && a.kind == "ok" && strings.HasSuffix(a.out, "["+shown+"]") {
 				b.Finding = c.Known("render-inherits-inurl")
 			}
 			res.AddBreak(b)
